@@ -87,6 +87,13 @@ def _wrap(val):
 def invoke_cases(draw, forced, rot):
     """One invoke containing the built-in `forced`; `rot` rotates the
     choices that Hypothesis' simplest example would otherwise pin."""
+    kind = KINDS[(draw(st.integers(0, 2)) + rot) % 3]
+    trans = {"kind": kind}
+    if kind != "none":
+        trans["schedule"] = ["static", "dynamic"][draw(st.integers(0, 3)) == 3]
+    if kind == "region":
+        trans["reprod"] = bool((draw(st.integers(0, 1)) + rot // 3) % 2)
+        trans["merge"] = bool((draw(st.integers(0, 1)) + rot // 6) % 2)
     nextra = draw(st.integers(0, 3))
     names = [draw(st.sampled_from(spec.ORDER)) for _ in range(nextra)]
     names.insert(draw(st.integers(0, nextra)), forced)
@@ -121,7 +128,10 @@ def invoke_cases(draw, forced, rot):
                 args.append(fld[0])
             elif acc == "w":            # reduction result
                 fresh = [s for s in RED_SCALARS if s not in reductions]
-                if reductions and (not fresh or draw(st.integers(0, 5)) == 5):
+                # (one OpenMP region refuses two reductions into one variable)
+                if reductions and (not fresh or (
+                        draw(st.integers(0, 5)) == 5
+                        and not trans.get("merge"))):
                     var = draw(st.sampled_from(reductions))
                 else:
                     var = fresh[0]
@@ -129,12 +139,18 @@ def invoke_cases(draw, forced, rot):
                 args.append(var)
             else:
                 how = draw(st.integers(0, 5))
-                if how == 5 and reductions and not cons and typ == "rs":
+                avail = [r for r in reductions if r not in taken]
+                if how == 5 and avail and not cons and typ == "rs":
                     # a reduction result computed earlier in this invoke
-                    args.append(draw(st.sampled_from(reductions)))
+                    var = draw(st.sampled_from(avail))
+                    taken.add(var)
+                    args.append(var)
                 elif how >= 3:
+                    # (PSyclone refuses the same variable twice in a call)
                     var = draw(st.sampled_from(
-                        REAL_SCALARS if typ == "rs" else INT_SCALARS))
+                        [v for v in (REAL_SCALARS if typ == "rs"
+                                     else INT_SCALARS) if v not in taken]))
+                    taken.add(var)
                     if cons:
                         scal_cons.setdefault(var, set()).add(cons)
                     scal_cons.setdefault(var, set())
@@ -170,13 +186,6 @@ def invoke_cases(draw, forced, rot):
                             "value": val})
     for var in reductions:
         scalars.append({"name": var, "type": "real", "value": -77})
-    kind = KINDS[(draw(st.integers(0, 2)) + rot) % 3]
-    trans = {"kind": kind}
-    if kind != "none":
-        trans["schedule"] = ["static", "dynamic"][draw(st.integers(0, 3)) == 3]
-    if kind == "region":
-        trans["reprod"] = bool((draw(st.integers(0, 1)) + rot // 3) % 2)
-        trans["merge"] = bool((draw(st.integers(0, 1)) + rot // 6) % 2)
     return {"builtins": builtins, "fields": fields, "scalars": scalars,
             "trans": trans}
 
